@@ -59,6 +59,20 @@ func World(prop string, seed uint64, idx int, tier string) *world.World {
 	default:
 		panic("gen: unknown property " + prop)
 	}
+	switch prop {
+	case "C01", "C03", "C05", "C06", "C20":
+		// the statistics reporter (Verbose) as one more moving part: its own stream r2 keeps the rest of the world as it was
+		r2 := world.NewRng(world.Mix(ws, 0x7665726273))
+		if r2.Bool(0.08) {
+			for i := range w.Tasks {
+				k := w.Tasks[i].Kind
+				if k == "cnf" || k == "opt" || k == "count" {
+					w.Tasks[i].Verbose = true
+				}
+			}
+			w.Sched.TickProb = []float64{0, 0.02, 0.2}[r2.Intn(3)]
+		}
+	}
 	return w
 }
 
@@ -439,6 +453,12 @@ func genC01(r *world.Rng, w *world.World, big bool, certAlways bool) {
 		maxN = r.Range(18, 45)
 	}
 	n, cl := cnfInstance(r, maxN, !validated || r.Bool(0.3))
+	if r.Bool(0.008) || (big && r.Bool(0.02)) {
+		// more than a thousand conflicts: activity rescaling, many restarts and reductions, long certificates
+		validated = true
+		n = r.Range(55, 75)
+		cl = randKSAT(r, n, int(float64(n)*(4.1+0.4*r.Float())), 3, 3)
+	}
 	t := world.TaskSpec{Kind: "cnf", N: n, Clauses: cl}
 	t.Route = r.PickS("slice", "slicenb", "dimacs", "dimacs")
 	hasEmpty := false
@@ -1267,6 +1287,7 @@ func genC16(r *world.Rng, w *world.World, big bool) {
 			}
 			t = sub.Tasks[0]
 		}
+		t.Verbose = false // the statistics reporter reads solver fields without synchronisation, by design: C16 speaks of verbose off
 		w.Tasks = append(w.Tasks, t)
 	}
 	if r.Bool(0.5) {
